@@ -458,6 +458,24 @@ async fn scn_phased(seed: u64, n: usize) -> Result<String, String> {
     Ok(env.finish(&[]))
 }
 
+/// Waits for a caller task until `deadline` -- ONE budget shared by the whole batch of callers, not a
+/// budget per task: a change of the driver that strands many requests (a frame never written, an
+/// answer delivered elsewhere) must not multiply the wait by the number of stranded callers (a seeded
+/// change of the fourth wave made the S scenario wait 60 s x ~900).  A task still pending at the
+/// deadline is aborted AND awaited (it holds the `Env`), and counts as a caller that gave up.
+/// Returns `true` when the task ended on its own.
+async fn join_by(mut h: tokio::task::JoinHandle<()>, deadline: tokio::time::Instant) -> bool {
+    match tokio::time::timeout_at(deadline, &mut h).await {
+        Ok(Ok(())) => true,
+        Ok(Err(_)) => false,
+        Err(_) => {
+            h.abort();
+            let _ = h.await;
+            false
+        }
+    }
+}
+
 // ------------------------------------------------------------------ R: random cancellation, multi-thread
 /// `neg`: about one request in 12 is answered on a NEGATIVE stream id (-1 = event stream, or any other
 /// negative id) instead of its own: the reader must drop such frames (never `lookup` them), the
@@ -557,11 +575,10 @@ async fn scn_random(seed: u64, n: usize, neg: bool, storm: bool) -> Result<Strin
         }
         a.abort();
     }
+    let deadline = tokio::time::Instant::now() + Duration::from_secs(60);
     for (m, h, _) in handles {
-        match tokio::time::timeout(Duration::from_secs(60), h).await {
-            Ok(Ok(())) => {}
-            Ok(Err(_)) => env.ev(2, format!("c{:x}", m)),
-            Err(_) => env.ev(2, format!("c{:x}", m)),
+        if !join_by(h, deadline).await {
+            env.ev(2, format!("c{:x}", m));
         }
     }
     // fresh requests after the storm
@@ -673,17 +690,19 @@ async fn scn_exhaust(seed: u64, fill: usize, extra: usize, old: usize, young: us
     // the extras must come back on their own (error); a hang is ended after the release
     let left = (release_at.load(Ordering::SeqCst).saturating_sub(env.now())) / 1_000_000;
     tokio::time::sleep(Duration::from_millis(left + 50)).await;
+    let deadline = tokio::time::Instant::now() + Duration::from_secs(30);
     for (m, h) in extras {
         let a = h.abort_handle();
-        if tokio::time::timeout(Duration::from_secs(30), h).await.is_err() {
+        if tokio::time::timeout_at(deadline, h).await.is_err() {
             a.abort();
             env.ev(2, format!("c{:x}", m));
         }
     }
+    let deadline = tokio::time::Instant::now() + Duration::from_secs(60);
     for (i, h) in handles.into_iter().enumerate() {
         if let Some(h) = h {
             let a = h.abort_handle();
-            if tokio::time::timeout(Duration::from_secs(60), h).await.is_err() {
+            if tokio::time::timeout_at(deadline, h).await.is_err() {
                 a.abort();
                 env.ev(2, format!("c{:x}", i + 1));
             }
@@ -1147,9 +1166,10 @@ async fn scn_oversize(seed: u64, victims: usize, len: u64) -> Result<String, Str
         Some(o) => env.ev(2, Env::done_token(big_marker, &o)),
         None => env.ev(2, format!("c{:x}", big_marker)),
     }
+    let deadline = tokio::time::Instant::now() + Duration::from_secs(30);
     for (i, h) in handles.into_iter().enumerate() {
         let a = h.abort_handle();
-        if tokio::time::timeout(Duration::from_secs(30), h).await.is_err() {
+        if tokio::time::timeout_at(deadline, h).await.is_err() {
             a.abort();
             env.ev(2, format!("c{:x}", i + 1));
         }
